@@ -35,8 +35,12 @@ tuples (by value), `('opaque', type, id)` for anything else (only its identity i
 import re
 import time
 import weakref
+from itertools import chain as _ch
+
+_chain = _ch.from_iterable
 
 _CURRENT = [None]          # the audit the hooks report to (one per process)
+_REG = {}                  # id(object) -> [weakref, set of owners]: the objects reachable from a cache entry (of _CURRENT[0])
 _MISSING = object()
 REF = 'ref'
 PHASES = ('load', 'compile', 'run')
@@ -85,7 +89,7 @@ def _classify(t):
 
 
 class Snap(object):
-    __slots__ = ('root', 'objs', 'cmemo', 'conts', 'found')
+    __slots__ = ('root', 'objs', 'cmemo', 'conts', 'found', 'lists', 'dicts')
 
 
 def take(root, cmemo_of=None, collect=False):
@@ -95,6 +99,8 @@ def take(root, cmemo_of=None, collect=False):
     objs = {}
     conts = set()
     found = []
+    lists = []
+    dicts = []
     TRget = _TR.get
     skip = None
     cm = None
@@ -128,7 +134,9 @@ def take(root, cmemo_of=None, collect=False):
                 visit(v, i)
             return (REF, i)
         if c == 2:
-            conts.add(id(v))
+            if id(v) not in conts:
+                conts.add(id(v))
+                lists.append(v)
             out = []
             for x in v:
                 if TRget(type(x)) == 1:          # (the common case inline: a list of descriptors / statements)
@@ -142,7 +150,9 @@ def take(root, cmemo_of=None, collect=False):
         if c == 3:
             if id(v) == skip:
                 return ('memo-dict', id(v))
-            conts.add(id(v))
+            if id(v) not in conts:
+                conts.add(id(v))
+                dicts.append(v)
             out = []
             for k, x in v.items():
                 tk = type(k)
@@ -167,12 +177,18 @@ def take(root, cmemo_of=None, collect=False):
                 dd = getattr(v, '__dict__', {})
                 vals = tuple(v) + tuple(dd.values())
                 objs[i] = (t, tuple(v._fields) + tuple(dd), tuple(map(type, vals)), tuple([enc(x) for x in vals]))
+                if collect and hasattr(v, '__dict__'):
+                    found.append(v)
             return (REF, i)
         if c == 7:
-            conts.add(id(v))
+            if id(v) not in conts:
+                conts.add(id(v))
+                lists.append(v)
             return ('list', id(v), t, tuple([enc(x) for x in v]))
         if c == 8:
-            conts.add(id(v))
+            if id(v) not in conts:
+                conts.add(id(v))
+                dicts.append(v)
             return ('dict', id(v), t, tuple([(enc(k), enc(x)) for k, x in v.items()]))
         if c == 9:
             conts.add(id(v))
@@ -193,7 +209,39 @@ def take(root, cmemo_of=None, collect=False):
         s.cmemo = tuple(memo)
     s.conts = conts if collect else None
     s.found = found if collect else None
+    s.lists = lists if collect else None
+    s.dicts = dicts if collect else None
     return s
+
+
+def fast_signature(s):
+    """From a snapshot taken with collect=True: what the check after every operation compares - for every tracked object
+    its class, attribute names and the ids of the attribute values, for every list the ids of its items, for every dict
+    its keys and the ids of its values.  Whatever a new snapshot would show as a difference (a value, a value type, an
+    attribute name, an item, the identity of an object / list / dict) changes one of these; when one of them changed, a
+    new snapshot is taken and compared.  (The signature holds the objects themselves: it lives as long as its cache entry.)"""
+    objs = [o for o in s.found if hasattr(o, '__dict__')]
+    lists, dicts = list(s.lists), list(s.dicts)
+    return objs, lists, dicts, _flat(objs, lists, dicts), (len(s.cmemo) if s.cmemo is not None else None)
+
+
+def _flat(objs, lists, dicts):
+    # (C-level iteration only: this runs for every cache entry after every operation)
+    dds = list(map(vars, objs))
+    return (list(map(id, _chain(map(dict.values, dds)))), list(_chain(dds)), list(map(type, objs)),
+            list(map(id, _chain(lists))), list(map(len, lists)),
+            list(_chain(dicts)), list(map(id, _chain(map(dict.values, dicts)))), list(map(len, dds)), list(map(len, dicts)))
+
+
+def fast_same(sig, cmemo_of):
+    objs, lists, dicts, ref, nc = sig
+    if _flat(objs, lists, dicts) != ref:
+        return False
+    if nc is not None:
+        cm = getattr(cmemo_of, '_cache', None)
+        if type(cm) is not dict or len(cm) != nc:
+            return False
+    return True
 
 
 # ---------------------------------------------------------------------------------------------
@@ -385,28 +433,29 @@ def _hook_attr(cls, nm):
     orig = getattr(cls, nm)
     if getattr(orig, '_c13_heap', False):
         return                          # inherited from a base class that carries the hook already
+    # (the hook runs for EVERY attribute assignment of every descriptor / statement / table object, e.g. ~25000 times per
+    #  table-group load: one dict lookup, nothing else, unless the object is registered)
     if nm == '__setattr__':
-        def hook(self, name, value, _orig=orig):
-            a = _CURRENT[0]
-            if a is not None:
-                a.nset[a.pi] += 1
-                ent = a.reg.get(id(self))
-                if ent is not None and ent[0]() is self:
-                    a.on_write(self, name, value, ent)
+        def hook(self, name, value, _orig=orig, _reg=_REG):
+            if id(self) in _reg:
+                _written(self, name, value)
             _orig(self, name, value)
     else:
-        def hook(self, name, _orig=orig):
-            a = _CURRENT[0]
-            if a is not None:
-                a.nset[a.pi] += 1
-                ent = a.reg.get(id(self))
-                if ent is not None and ent[0]() is self:
-                    a.on_write(self, name, _MISSING, ent)
+        def hook(self, name, _orig=orig, _reg=_REG):
+            if id(self) in _reg:
+                _written(self, name, _MISSING)
             _orig(self, name)
     hook.__name__ = nm
     hook._c13_heap = True
     hook._c13_orig = orig
     setattr(cls, nm, hook)
+
+
+def _written(obj, name, value):
+    a = _CURRENT[0]
+    ent = _REG.get(id(obj))
+    if a is not None and ent is not None and ent[0]() is obj:
+        a.on_write(obj, name, value, ent)
 
 
 def _all_subclasses(cls):
@@ -458,7 +507,7 @@ def install_hooks():
 
 # ---------------------------------------------------------------------------------------------
 class _Entry(object):
-    __slots__ = ('wr', 'oid', 'snap', 'owner', 'ids', 'conts')
+    __slots__ = ('wr', 'oid', 'snap', 'owner', 'ids', 'conts', 'fast')
 
 
 def _owner_text(owner):
@@ -480,19 +529,21 @@ class HeapAudit(object):
     def __init__(self, key_str=None, ckey_str=None):
         self.key_str = key_str or (lambda k: str(k))
         self.ckey_str = ckey_str or (lambda k: str(k))
-        self.reg = {}            # id(object) -> [weakref, set of owners]
+        _REG.clear()
+        self.reg = _REG          # id(object) -> [weakref, set of owners]
         self.tg = {}             # table group key -> _Entry
         self.ct = {}             # (coder name, compiled key) -> _Entry
         self.cont = {}           # id(list / dict reachable from a cache entry) -> owner
         self.phase = ('run', None)
         self.pi = 2
-        self.nset = [0, 0, 0]    # setattr / delattr calls on objects of the hooked classes, by phase
         self.op = -1
         self.viol = []
         self.nviol = {}
         self.pat = []
         self.counts = {}
-        self.time = 0.0
+        self.time = 0.0          # seconds spent in the audit (all), in the checks of table groups / compiled templates after operations
+        self.time_tg = 0.0
+        self.time_ct = 0.0
         self._last_state = None
         self.hooked = install_hooks()
         _CURRENT[0] = self
@@ -535,7 +586,6 @@ class HeapAudit(object):
                 except TypeError:
                     continue
             ids.append(i)
-        self.count('objects registered (reachable from a cache entry)', len(ids))
         return ids
 
     def _drop(self, ent):
@@ -562,11 +612,12 @@ class HeapAudit(object):
         ent.oid = id(obj)
         ent.owner = owner
         ent.ids = self._register(owner, s.found)
+        self.count('objects registered (reachable from a cache entry)', len(ent.ids))
         ent.conts = s.conts
         for i in s.conts:
             self.cont.setdefault(i, owner)
-        s.found = None
-        s.conts = None
+        ent.fast = fast_signature(s)
+        s.found = s.conts = s.lists = s.dicts = None
         ent.snap = s
         store[key] = ent
         what = 'table groups' if owner[0] == 'tg' else 'compiled templates'
@@ -638,45 +689,69 @@ class HeapAudit(object):
                                % (_owner_text(owner), k, k, t.__name__, _short(items)), 'C._cache[*]', owner)
                 return
 
-    def _compare(self, ent, obj, kind, cmemo_of=None):
-        new = take(obj, cmemo_of=cmemo_of, collect=False)
+    def _compare(self, ent, obj, kind, cmemo_of=None, full=False):
+        """one cache entry against the snapshot taken when it was inserted.  The check after every operation compares the
+        entry's fast signature (identities of all attribute values / items of everything reachable, see fast_signature);
+        only when that changed - or `full` (last operation of the history) - a new snapshot is taken and compared."""
+        what = 'table groups' if kind == 'cache-digest' else 'compiled templates'
+        self.count('comparisons:' + what)
+        if fast_same(ent.fast, cmemo_of):
+            if not full:
+                return
+            flagged = False
+        else:
+            flagged = True
+            self.count('comparisons:%s:identity signature changed, new snapshot taken' % what)
+        new = take(obj, cmemo_of=cmemo_of, collect=True)
         old = ent.snap
         self.count('snapshots taken')
         self.count('objects walked', len(new.objs))
-        self.count('comparisons:' + ('table groups' if kind == 'cache-digest' else 'compiled templates'))
         same = new.root == old.root and new.objs == old.objs
         if same and new.cmemo == old.cmemo:
+            if flagged:
+                # e.g. an attribute re-assigned with an equal value of the same type (another int / str object)
+                self.count('comparisons:identity signature changed but the new snapshot equals the old one')
+                ent.fast = fast_signature(new)
+            else:
+                self.count('comparisons:%s:full snapshot at the end of the history' % what)
             return
         if not same:
             d = diff_snaps(old, new)
             text = '%s is not what it was when it was inserted into the cache: %s' % (
                 _owner_text(ent.owner), '; '.join('%s: %s -> %s' % x for x in d) or 'snapshots differ')
+            if not flagged:
+                text += ' [missed by the identity signature: harness/c13heap.py fast_same is incomplete]'
             self.violation(kind, text, path_sig(d[0][0]) if d else '?', ent.owner)
         if new.cmemo != old.cmemo:
             oc, nc = old.cmemo or (), new.cmemo or ()
             if nc[:len(oc)] != oc:
-                chg = next((('entry %r' % (a[0],), a, b) for a, b in zip(oc, nc) if a != b), ('length', len(oc), len(nc)))
+                chg = next((('entry %r' % (x[0],), x, y) for x, y in zip(oc, nc) if x != y), ('length', len(oc), len(nc)))
                 self.violation(kind, '%s: the Table C memo did not only grow: %s was %s, is %s'
                                % (_owner_text(ent.owner), chg[0], _short(chg[1]), _short(chg[2])), 'C._cache[*]', ent.owner)
             else:
                 self.count('Table C memo growth events')
                 self.count('Table C memo entries gained', len(nc) - len(oc))
                 self._check_cmemo(ent.owner, new)
-                # the new operator objects are reachable from the cache from now on
-                cm = getattr(cmemo_of, '_cache', {})
-                ent.ids.extend(self._register(ent.owner, [cm[k] for k, _, _, _ in nc[len(oc):] if k in cm]))
+        # what is reachable now is registered (new Table C operators; whatever a violation made reachable) and compared from now on
+        ent.ids = sorted(set(ent.ids) | set(self._register(ent.owner, new.found)))
+        for i in new.conts:
+            self.cont.setdefault(i, ent.owner)
+        ent.conts = ent.conts | new.conts
+        ent.fast = fast_signature(new)
+        new.found = new.conts = new.lists = new.dicts = None
         ent.snap = new
 
-    def after_op(self, cache, managers):
+    def after_op(self, cache, managers, final=False):
         """after an operation: every entry of the table-group cache and of every compiled-template cache is what it was
-        when it was inserted"""
+        when it was inserted (final: last operation of the history - full snapshots whatever the fast signatures say)"""
         t0 = time.perf_counter()
         self.sync_tables(cache, seen=False)
         groups = getattr(cache, '_groups', {})
         for k, ent in list(self.tg.items()):
             g = groups.get(k)
             if g is not None:
-                self._compare(ent, g, 'cache-digest', cmemo_of=getattr(g, 'C', None))
+                self._compare(ent, g, 'cache-digest', cmemo_of=getattr(g, 'C', None), full=final)
+        t1 = time.perf_counter()
         for name, mgr in managers.items():
             self.sync_compiled(name, mgr, seen=False)
             cc = getattr(mgr, 'cache', {})
@@ -684,8 +759,11 @@ class HeapAudit(object):
                 if kk[0] == name:
                     c = cc.get(kk[1])
                     if c is not None:
-                        self._compare(ent, c, 'compiled-digest')
-        self.time += time.perf_counter() - t0
+                        self._compare(ent, c, 'compiled-digest', full=final)
+        t2 = time.perf_counter()
+        self.time += t2 - t0
+        self.time_tg += t1 - t0
+        self.time_ct += t2 - t1
 
     # -- identity ------------------------------------------------------------------------------
     def on_coder_state(self, st, a, kw):
@@ -830,13 +908,14 @@ class HeapAudit(object):
     # -- result --------------------------------------------------------------------------------
     def result(self):
         c = dict(self.counts)
-        for ph, n in zip(PHASES, self.nset):
-            c['setattr calls on descriptor / statement / table objects:' + ph] = n
+        for ph in PHASES:
+            c.setdefault('setattr on cached objects:' + ph, 0)
         for k, n in self.nviol.items():
             c['violations:' + k] = n
         while len(self.pat) <= self.op:
             self.pat.append([])
-        return {'viol': self.viol, 'pat': self.pat, 'counts': c, 'time': self.time, 'hooked': self.hooked}
+        return {'viol': self.viol, 'pat': self.pat, 'counts': c, 'time': self.time, 'time_tg': self.time_tg, 'time_ct': self.time_ct,
+                'hooked': self.hooked}
 
 
 def pattern_str(r):
